@@ -450,7 +450,8 @@ def crop_case(ctx, exprs, metas, shape, sp, org, center, cshape, tag):
             want_y = ys[cc[1] - cshape // 2: cc[1] + cshape // 2]
             if res["xs"] != want_x or res["ys"] != want_y:
                 ctx.violation("subimage:extent", "fitting even crop is not [c-s/2, c+s/2)",
-                              dict(kind="subimage", shape=shape, center=list(center), crop_shape=cshape, impl=res))
+                              dict(kind="subimage", shape=shape, spacing=sp, origin=org, center=list(center),
+                                   crop_shape=cshape, impl=res))
     md = meta_diff(im, out, coords=False)
     if md:
         ctx.violation("metadata:subimage", "subimage does not keep metadata: " + md,
@@ -773,6 +774,39 @@ def replay(ctx, data):
         res, _, _ = run_zf(d["rows"], 1.0)
         print("replay: zero_filter ->", res)
         zf_direct(ctx, d["rows"], res, True, "replay")
+    elif kind == "normalize":
+        import numpy as np
+        from holopy.core.process import normalize
+        im = mk([d["values"]], 1.0)
+        out = normalize(im)
+        n3 = normalize(im * d.get("scale", 2.0))
+        ctx.explored += 1
+        print("replay: normalize mean=%r idem-err=%.3g scale-err=%.3g" % (
+            float(out.values.mean()), float(abs(normalize(out) - out).max()), float(abs(n3 - out).max())))
+        tol = 1e-12 * float(abs(out).max())
+        if abs(float(out.values.mean()) - 1) > 1e-12 or float(abs(normalize(out) - out).max()) > tol or \
+                float(abs(n3 - out).max()) > tol:
+            ctx.violation(data["key"], data["what"], d)
+    elif kind in ("subimage", "corr-subimage"):
+        exprs, metas = [], []
+        crop_case(ctx, exprs, metas, tuple(d["shape"]), d.get("spacing", 1.0), d.get("origin"), tuple(d["center"]),
+                  d["crop_shape"], "replay")
+        print("replay: subimage ->", metas[0]["impl"])
+        finish_cases(ctx, "C18c", exprs, metas, lambda m: "corr:subimage:%s" % m["stream"],
+                     lambda m: "model and implementation disagree on subimage (%s)" % m["stream"])
+    elif kind == "detrend":
+        import numpy as np
+        from holopy.core.process import detrend
+        rows, (a, b, c) = d["rows"], d["plane"]
+        im = mk(rows, 1.0)
+        pl = np.array([[a + b * i + c * j for j in range(len(rows[0]))] for i in range(len(rows))])
+        im2 = im + pl[None, :, :]
+        im2.attrs = im.attrs
+        err = float(np.abs(detrend(im2).values - detrend(im).values).max())
+        ctx.explored += 1
+        print("replay: detrend plane-removal error %.3g" % err)
+        if err > 1e-11 * max(1.0, float(np.abs(im2.values).max())):
+            ctx.violation(data["key"], data["what"], d)
     else:
         print("replay: re-running the whole check with the recorded seed")
         ctx.seed = data.get("seed", ctx.seed)
